@@ -175,7 +175,16 @@ def key_obj(key):
 
 
 def build(t, xs, flags=None):
-    """cvxopt.modeling object for tree t over the variables xs.  flags: dict(sparse=bool)."""
+    """cvxopt.modeling object for tree t over the variables xs.  flags: dict(sparse=bool[, record=list, consumed=set]).
+    With flags['record'] every built sub-expression is appended as (subtree, object); objects that are legitimately
+    updated in place later (left operand of += etc.) have their id in flags['consumed']."""
+    obj = _build(t, xs, flags)
+    if flags is not None and flags.get("record") is not None:
+        flags["record"].append((t, obj))
+    return obj
+
+
+def _build(t, xs, flags=None):
     from cvxopt import modeling as M
     sp = bool(flags and flags.get("sparse"))
     op = t[0]
@@ -198,6 +207,8 @@ def build(t, xs, flags=None):
         a = build(t[1], xs, flags)
         if not isinstance(a, M._function):
             a = +a if not isinstance(a, (float, int)) and not hasattr(a, "size") else M._function() + a
+        elif flags is not None and flags.get("consumed") is not None:
+            flags["consumed"].add(id(a))
         b = build(t[2], xs, flags) if op in ("iadd", "isub") else t[2]
         if op == "iadd":
             a += b
@@ -328,10 +339,12 @@ def gen(draw, lens, L, curv, depth):
         return t if curv == "convex" else ["neg", t]
     if k == "minmax":
         op = "max" if curv == "convex" else "min"
-        n_args = draw(st.integers(2, 3))
+        n_args = draw(st.integers(2, 4))
         args = [draw(gen(lens, L if i == 0 else draw(st.sampled_from([L, 1])), curv, d)) for i in range(n_args)]
-        if draw(st.integers(0, 3)) == 0:
-            args[-1] = ["const", draw(st.sampled_from(DY))]
+        # constant arguments (one or several, scalar or vector); the first argument stays a function
+        for i in range(1, n_args):
+            if draw(st.integers(0, 3)) == 0:
+                args[i] = ["const", draw(st.sampled_from(DY))] if (L == 1 or draw(st.booleans())) else ["const", dyl(draw, L)]
         return [op, args]
     if k == "minmax1":
         op = "max" if curv == "convex" else "min"
